@@ -266,9 +266,10 @@ class Graph(object):
                            standalone=self.snippet(form, hist, tail))
 
     # ---- attribution of a wrong mass ratio to the ions in the composition
-    def ratio_sig(self, comp, sig):
-        """If the composition contains ions and the same check passes on the composition rebuilt from the
-        neutral atoms, the cause is that the ion charge is not kept in the natural mass."""
+    def ratio_sig(self, comp, sig, relation):
+        """If the composition contains ions and the same relation (getter: natural density of a known density;
+        setter: density of a given natural density) holds on the composition rebuilt from the neutral atoms,
+        the cause is that the ion charge is not kept in the natural mass."""
         E = self.E
         nz = R.nonzero(comp)
         if not any(E.has_ion[t] for t in nz):
@@ -280,9 +281,12 @@ class Graph(object):
         try:
             r = R.ratio(neutral, E.n_mass, E.n_natmass)
             d = dict((E.n_atom[t], c) for t, c in neutral.items())
-            f1 = E.formula(d, density=1.0)
-            f2 = E.formula(dict(d), natural_density=1.0)
-            ok = close(f1.natural_density, r, REL) and close(f2.density, 1.0 / r, REL)
+            f = E.formula(d, density=1.0)
+            if relation == "getter":
+                ok = close(f.natural_density, r, REL)
+            else:
+                f.natural_density = 1.0
+                ok = close(f.density, 1.0 / r, REL)
         except Exception:
             ok = False
         self.acc.evaluations += 2
@@ -319,7 +323,7 @@ class Graph(object):
         if not close(d, rho, REL):
             sig = rule + ":density"
             if ratio_dependent_density:
-                sig = self.ratio_sig(comp, sig)
+                sig = self.ratio_sig(comp, sig, "setter")
             self.viol(sig, form, hist, rho, d)
             return False
         if rho is None:
@@ -333,7 +337,7 @@ class Graph(object):
             return False
         want_nd = rho * R.ratio(want, E.mass, E.natmass)
         if not close(nd, want_nd, REL):
-            self.viol(self.ratio_sig(comp, rule + ":natural-density"), form, hist, want_nd, nd)
+            self.viol(self.ratio_sig(comp, rule + ":natural-density", "getter"), form, hist, want_nd, nd)
             return False
         if d2 != d:
             self.viol(rule + ":reading-natural-density-changes-density", form, hist, d, d2)
@@ -559,8 +563,7 @@ class Graph(object):
                 if how == "str":
                     roots.append((form, State(f, comp0, rho, (), False)))
         # lattice grid (independent of the state by the statement; run on the plain root)
-        if not self.check_lattice(f0, base):
-            return
+        self.check_lattice(f0, base)          # a wrong cell volume does not break a density state
         # step 5: breadth-first exploration
         frontier = []
         for form, st in roots:
@@ -571,8 +574,7 @@ class Graph(object):
             self.seen.add(k)
             acc.states += 1
             self.seen_atoms.add(k[0])
-            if not self.check_packing(st, form, True):
-                return
+            self.check_packing(st, form, True)    # a wrong volume estimate does not break a density state
             frontier.append((form, st))
         for level in range(1, depth + 1):
             last = level == depth
@@ -592,8 +594,7 @@ class Graph(object):
                         acc.nontrivial += 1
                     new_atoms = k[0] not in self.seen_atoms
                     self.seen_atoms.add(k[0])
-                    if not self.check_packing(new, form, (not last) or new_atoms):
-                        continue
+                    self.check_packing(new, form, (not last) or new_atoms)
                     if acc.states % 30011 == 0:
                         acc.sample(self.case(form, new.hist))
                     if not last:
